@@ -211,9 +211,16 @@ impl FloatEncoding for f32 {
         // clear sign
         let sign = (mantissa < 0) as u32;
         let mut mantissa = mantissa.unsigned_abs();
+        let mut exponent = exponent as i32;
 
+        // keep two spare top bits for the shifts below; the bits dropped here are far below the
+        // rounding position and are kept as a sticky bit
+        if mantissa.leading_zeros() < 2 {
+            mantissa = mantissa >> 2 | (mantissa & 0b11 != 0) as u32;
+            exponent += 2;
+        }
         let zeros = mantissa.leading_zeros();
-        let top_bit = (u32::BITS - zeros) as i16 + exponent;
+        let top_bit = (u32::BITS - zeros) as i32 + exponent;
 
         if top_bit > 128 {
             // overflow
@@ -222,7 +229,7 @@ impl FloatEncoding for f32 {
             } else {
                 Inexact(f32::NEG_INFINITY, Sign::Negative)
             };
-        } else if top_bit < -125 - 23 {
+        } else if top_bit < -126 - 23 {
             // underflow
             return if sign == 0 {
                 Inexact(0f32, Sign::Negative)
@@ -244,7 +251,7 @@ impl FloatEncoding for f32 {
                 mantissa <<= shift as u32;
             } else {
                 let shifted = mantissa << (30 + shift) as u32;
-                round_bits = (shifted >> 28 & 0b110) as u8 | ((shifted & 0xfffffff) != 0) as u8;
+                round_bits = (shifted >> 28 & 0b110) as u8 | ((shifted & 0x1fffffff) != 0) as u8;
                 mantissa >>= (-shift) as u32;
             }
 
@@ -260,13 +267,13 @@ impl FloatEncoding for f32 {
             }
 
             // then calculate the exponent (bias is 127)
-            let exponent = (exponent + 127 + u32::BITS as i16) as u32 - zeros - 1;
+            let exponent = (exponent + 127 + u32::BITS as i32) as u32 - zeros - 1;
 
             // then compose the bit representation of f32
             bits = (sign << 31) | (exponent << 23) | (mantissa >> 9);
 
             // get the low bit of mantissa and two extra bits, and adding round-to-even adjustment
-            round_bits = ((mantissa >> 7) & 0b110) as u8 | ((mantissa & 0x7f) != 0) as u8;
+            round_bits = ((mantissa >> 7) & 0b110) as u8 | ((mantissa & 0xff) != 0) as u8;
         };
 
         if round_bits & 0b11 == 0 {
@@ -332,9 +339,16 @@ impl FloatEncoding for f64 {
         // clear sign
         let sign = (mantissa < 0) as u64;
         let mut mantissa = mantissa.unsigned_abs();
+        let mut exponent = exponent as i32;
 
+        // keep two spare top bits for the shifts below; the bits dropped here are far below the
+        // rounding position and are kept as a sticky bit
+        if mantissa.leading_zeros() < 2 {
+            mantissa = mantissa >> 2 | (mantissa & 0b11 != 0) as u64;
+            exponent += 2;
+        }
         let zeros = mantissa.leading_zeros();
-        let top_bit = (u64::BITS - zeros) as i16 + exponent;
+        let top_bit = (u64::BITS - zeros) as i32 + exponent;
 
         if top_bit > 1024 {
             // overflow
@@ -366,7 +380,7 @@ impl FloatEncoding for f64 {
             } else {
                 let shifted = mantissa << (62 + shift) as u64;
                 round_bits =
-                    (shifted >> 60 & 0b110) as u8 | ((shifted & 0xfffffffffffffff) != 0) as u8;
+                    (shifted >> 60 & 0b110) as u8 | ((shifted & 0x1fffffffffffffff) != 0) as u8;
                 mantissa >>= (-shift) as u32;
             }
 
@@ -382,13 +396,13 @@ impl FloatEncoding for f64 {
             }
 
             // then calculate the exponent (bias is 1023)
-            let exponent = (exponent + 1023 + u64::BITS as i16) as u64 - zeros as u64 - 1;
+            let exponent = (exponent + 1023 + u64::BITS as i32) as u64 - zeros as u64 - 1;
 
             // then compose the bit representation of f64
             bits = (sign << 63) | (exponent << 52) | (mantissa >> 12);
 
             // get the low bit of mantissa and two extra bits, and adding round-to-even adjustment
-            round_bits = ((mantissa >> 10) & 0b110) as u8 | ((mantissa & 0x3ff) != 0) as u8;
+            round_bits = ((mantissa >> 10) & 0b110) as u8 | ((mantissa & 0x7ff) != 0) as u8;
         };
 
         if round_bits & 0b11 == 0 {
